@@ -44,6 +44,8 @@ def gen_program(r: Any) -> dict:
         seq.append([t])
     kind = r.choice(["direct", "direct", "pipe", "replay"])
     P = {"kind": kind, "seq": seq, "raise_at": r.choice([None, None, None, 1, 2, 3])}
+    if kind == "pipe":
+        P["sub_scheduler"] = r.choice([None, "immediate", "other_loop"])
     if kind == "replay":
         P["buffer"] = r.choice([None, 1, 2, 10])
         seq.insert(r.randint(0, len(seq)), ["SUB"])
@@ -90,13 +92,23 @@ def scenario(c: Any, P: dict) -> dict:
             self._deliver("C", None)
 
     consumer = Consumer()
+    cleanup: list = []
     so = None
     if P["kind"] == "direct":
         so = ObserveOnObserver(loop, consumer)
         target: Any = so
     elif P["kind"] == "pipe":
         target = Subject()
-        target.pipe(ops.observe_on(loop)).subscribe(consumer)
+        if P.get("sub_scheduler") == "immediate":
+            # a different scheduler arrives at subscribe time: observe_on(loop) still delivers on `loop`
+            from reactivex.scheduler import ImmediateScheduler
+            target.pipe(ops.observe_on(loop)).subscribe(consumer, scheduler=ImmediateScheduler())
+        elif P.get("sub_scheduler") == "other_loop":
+            other_loop = EventLoopScheduler()
+            cleanup.append(other_loop.dispose)
+            target.pipe(ops.observe_on(loop)).subscribe(consumer, scheduler=other_loop)
+        else:
+            target.pipe(ops.observe_on(loop)).subscribe(consumer)
     else:
         target = ReplaySubject(P["buffer"], scheduler=loop)
     sent: list = []
@@ -171,6 +183,8 @@ def scenario(c: Any, P: dict) -> dict:
         if so.is_acquired:
             viol.append(("C32:direct:is_acquired-true-at-quiescence", {}))
     loop.dispose()
+    for f in cleanup:
+        f()
     return {"viol": viol, "obs": {"deliveries": len(got), "raising_deliveries": 1 if state["raised"] else 0, "sent": len(sent)},
             "sig": {"delivered": delivered}, "decided": True}
 
